@@ -52,7 +52,7 @@ type Rule struct {
 	ID          string
 	Title       string
 	Props       []string
-	VectorsOnly bool                            // anchors exist only under -tags vectors
+	VectorsOnly bool                              // anchors exist only under -tags vectors
 	Floor       func(cfg Config, prop string) int // minimal number of obligations confirmed by hand
 	Run         func(c *RuleCtx)
 }
@@ -187,8 +187,9 @@ type knownFile struct {
 }
 
 // known_findings.txt, line oriented:
-//   known: property=C05 key=R16/... <what fails>
-//   fixed: property=C11 <commit> <what failed>
+//
+//	known: property=C05 key=R16/... <what fails>
+//	fixed: property=C11 <commit> <what failed>
 func loadKnown(path string) (*knownFile, error) {
 	kf := &knownFile{}
 	f, err := os.Open(path)
